@@ -198,6 +198,23 @@ def extra_cases() -> list[dict[str, Any]]:
         "{% macro mm want %}{{ blocks | where: i => i.kind == want | size }}{{ blocks | find: i => i.kind == want | size }}{% endmacro %}{{ blocks | where: i => i.kind == 'text' | size }}{{ blocks | find: i => i.kind == names[1] | size }}{% call mm 'image' %}",
         "{% assign want = 'text' %}{{ blocks | where: i => i.kind == want | size }}{% render 'lam', items: blocks, want: 'image' %}{{ blocks | where: i => i.kind == want | size }}",
     ]
+    # one `call` node run against two definitions of the macro (same parameter names, a default added / removed / changed)
+    sigs = ["who, greeting", "who, greeting: 'Good day'", "who, greeting: one", "greeting: 'Hi', who: 'x'"]
+    for s1 in sigs:
+        for s2 in sigs:
+            if s1 != s2:
+                # (a parameter that has a default is read directly: its value never is an undefined)
+                b1, b2 = ("{{ greeting }} {{ who }};" if "greeting:" in x_ else "{{ greeting | default: 'Hi' }} {{ who }};" for x_ in (s1, s2))
+                keep.append(
+                    "{% for nm in names %}{% if forloop.first %}{% macro g2 " + s1 + " %}" + b1 + "{% endmacro %}{% else %}{% macro g2 " + s2
+                    + " %}" + b2 + "{% endmacro %}{% endif %}{% call g2 one %}{% call g2 who: cnt %}{% endfor %}"
+                )
+    # message text with escaped percent signs: `%%(word)s` is literal text, not a message variable
+    for f_ in ("t", "gettext", "ngettext: 'many %%(zzz)s', cnt", "pgettext: 'ctx'", "npgettext: 'ctx', '%%(zzz)s many', cnt", "t: plural: 'many %%(zzz)s', count: cnt"):
+        keep += [
+            "{{ 'Dear %(you)s, write %%(zzz)s here' | " + f_ + ("," if ":" in f_ else ":") + " you: one }}",
+            "{{ '%%(zzz)s and 100%% of %(you)s %%%%(yyy)s' | " + f_ + ("," if ":" in f_ else ":") + " you: cnt }}",
+        ]
     for s_ in keep:
         out.append({"source": s_, "own": True, "complete_ok": True})
         out.append({"source": s_, "own": True, "complete_ok": True, "limited": True})
